@@ -634,12 +634,12 @@ func (obj *SparseFloat32Vector) ITERATOR_FROM(i int) *SparseFloat32VectorIterato
   return &r
 }
 func (obj *SparseFloat32Vector) JOINT_ITERATOR(b ConstVector) *SparseFloat32VectorJointIterator {
-  r := SparseFloat32VectorJointIterator{obj.ITERATOR(), b.ConstIterator(), -1, Float32{}, nil}
+  r := SparseFloat32VectorJointIterator{obj.ITERATOR(), b.ConstIterator(), -1, Float32{}, nil, false}
   r.Next()
   return &r
 }
 func (obj *SparseFloat32Vector) JOINT3_ITERATOR(b, c ConstVector) *SparseFloat32VectorJoint3Iterator {
-  r := SparseFloat32VectorJoint3Iterator{obj.ITERATOR(), b.ConstIterator(), c.ConstIterator(), -1, Float32{}, nil, nil}
+  r := SparseFloat32VectorJoint3Iterator{obj.ITERATOR(), b.ConstIterator(), c.ConstIterator(), -1, Float32{}, nil, nil, false}
   r.Next()
   return &r
 }
@@ -712,13 +712,13 @@ type SparseFloat32VectorJointIterator struct {
   idx int
   s1 Float32
   s2 ConstScalar
+  ok bool
 }
 func (obj *SparseFloat32VectorJointIterator) Index() int {
   return obj.idx
 }
 func (obj *SparseFloat32VectorJointIterator) Ok() bool {
-  return !(obj.s1.ptr == nil || obj.s1.GetFloat32() == float32(0)) ||
-         !(obj.s2 == nil || obj.s2.GetFloat32() == float32(0))
+  return obj.ok
 }
 func (obj *SparseFloat32VectorJointIterator) Next() {
   ok1 := obj.it1.Ok()
@@ -739,6 +739,9 @@ func (obj *SparseFloat32VectorJointIterator) Next() {
       obj.s2 = obj.it2.GetConst()
     }
   }
+  // the iteration ends when no iterator delivered an element, zero
+  // elements of dense vectors must not terminate it
+  obj.ok = obj.s1.ptr != nil || obj.s2 != nil
   if obj.s1.ptr != nil {
     obj.it1.Next()
   }
@@ -772,6 +775,7 @@ func (obj *SparseFloat32VectorJointIterator) Clone() *SparseFloat32VectorJointIt
   r.idx = obj.idx
   r.s1 = obj.s1
   r.s2 = obj.s2
+  r.ok = obj.ok
   return &r
 }
 func (obj *SparseFloat32VectorJointIterator) CloneConstJointIterator() VectorConstJointIterator {
@@ -790,14 +794,13 @@ type SparseFloat32VectorJoint3Iterator struct {
   s1 Float32
   s2 ConstScalar
   s3 ConstScalar
+  ok bool
 }
 func (obj *SparseFloat32VectorJoint3Iterator) Index() int {
   return obj.idx
 }
 func (obj *SparseFloat32VectorJoint3Iterator) Ok() bool {
-  return !(obj.s1.ptr == nil || obj.s1.GetFloat32() == float32(0)) ||
-         !(obj.s2 == nil || obj.s2.GetFloat32() == float32(0)) ||
-         !(obj.s3 == nil || obj.s3.GetFloat32() == float32(0))
+  return obj.ok
 }
 func (obj *SparseFloat32VectorJoint3Iterator) Next() {
   ok1 := obj.it1.Ok()
@@ -833,6 +836,9 @@ func (obj *SparseFloat32VectorJoint3Iterator) Next() {
       obj.s3 = obj.it3.GetConst()
     }
   }
+  // the iteration ends when no iterator delivered an element, zero
+  // elements of dense vectors must not terminate it
+  obj.ok = obj.s1.ptr != nil || obj.s2 != nil || obj.s3 != nil
   if obj.s1.ptr != nil {
     obj.it1.Next()
   }
